@@ -76,20 +76,30 @@ def main(argv=None):
         print("INCONCLUSIVE property=%s reason=dependencies-missing %s" % (prop, err.strip()[:200]))
         return 2
     nshards = a.shards or min(16, os.cpu_count() or 4)
+    replay_spec = None
     if a.replay:
-        nshards = 1
+        # Replay = deterministically re-run the shard(s) that produced the recorded witnesses (seed, shard, shard count and tier are part of
+        # every witness) and report whether the same mechanism key shows up again.
+        with open(a.replay) as f:
+            rep = json.load(f)
+        ws = rep.get("witnesses") or []
+        if not ws:
+            print("INCONCLUSIVE property=%s reason=replay file holds no witness" % prop)
+            return 2
+        replay_spec = {"key": rep.get("key"), "shards": sorted({(w.get("seed", 0), w.get("shard", 0), w.get("nshards", 1), w.get("tier", "quick")) for w in ws})[:2]}
     watchdog = a.timeout or (900 if a.tier == "quick" else 4 * 3600)
     work = tempfile.mkdtemp(prefix="bnpmon-run-%s-" % prop)
     env = shard_env()
     env["BNPMON_TMP"] = work
     procs = []
     try:
-        for s in range(nshards):
+        jobs = [(s, a.tier, a.seed, s, nshards) for s in range(nshards)]
+        if replay_spec:
+            jobs = [(i, tier, seed, sh, ns) for i, (seed, sh, ns, tier) in enumerate(replay_spec["shards"])]
+        for s, tier, seed, sh, ns in jobs:
             out = os.path.join(work, "shard%d.json" % s)
             log = open(os.path.join(work, "shard%d.log" % s), "w")
-            cmd = [PYTHON, "-m", "bnpmon.shard", prop, a.tier, str(a.seed), str(s), str(nshards), out]
-            if a.replay:
-                cmd.append(os.path.abspath(a.replay))
+            cmd = [PYTHON, "-m", "bnpmon.shard", prop, tier, str(seed), str(sh), str(ns), out]
             procs.append((s, subprocess.Popen(cmd, env=env, cwd=work, stdout=log, stderr=subprocess.STDOUT), out, log))
         results, problems = [], []
         deadline = time.time() + watchdog
@@ -110,12 +120,33 @@ def main(argv=None):
                 continue
             with open(out) as f:
                 results.append(json.load(f))
+        if replay_spec:
+            return finish_replay(a, prop, results, problems, replay_spec)
         return finish(a, prop, results, problems, t0, nshards)
     finally:
         for _, p, _, _ in procs:
             if p.poll() is None:
                 p.kill()
         shutil.rmtree(work, ignore_errors=True)
+
+
+def finish_replay(a, prop, results, problems, spec):
+    if problems:
+        print("INCONCLUSIVE property=%s reason=%s" % (prop, "; ".join(problems)[:800]))
+        return 2
+    key = spec["key"]
+    found = None
+    for r in results:
+        if key in r["violations"]:
+            found = r["violations"][key]
+            break
+    if found:
+        print("VIOLATION property=%s replay=%s key=%s count=%d what=%s" % (prop, os.path.abspath(a.replay), key, found["count"], found["what"][:200]))
+        print("%s: replay reproduced the recorded mechanism (shards re-run: %r)" % (prop, spec["shards"]))
+        return 1
+    others = sorted({k for r in results for k in r["violations"]})
+    print("%s: replay did NOT reproduce %s on the current tree (shards re-run: %r; other violation keys seen: %r)" % (prop, key, spec["shards"], others[:5]))
+    return 0
 
 
 def finish(a, prop, results, problems, t0, nshards):
